@@ -54,7 +54,7 @@ func init() {
 		ScaleFree: true,
 	})
 	RegStrat(&Strat{
-		Name: "momentum.RsiStrategy",
+		Name: "momentum.RsiStrategy", Periods: []int{0},
 		// cfg = [rsi period, buyAt, sellAt]
 		Cfgs: func(t bool) [][]float64 {
 			var r [][]float64
